@@ -93,7 +93,8 @@ def gen_field(rng):
     if s < 0.7:
         return {"kind": "field", "cls": spec, "text": spelling(rng, d), "stream": "spelling"}
     if s < 0.85:
-        return {"kind": "field", "cls": spec, "text": rng.choice(G.BOUNDARY), "stream": "boundary"}
+        return {"kind": "field", "cls": spec, "text": G.kind_boundary(rng, d) if rng.random() < 0.6 else rng.choice(G.BOUNDARY),
+                "stream": "boundary"}
     if s < 0.93:
         return {"kind": "field", "cls": spec, "text": G.defect(rng, spelling(rng, d)), "stream": "defect"}
     return {"kind": "field", "cls": spec, "text": G.some_text(rng, d, "adversarial"), "stream": "adversarial"}
